@@ -251,15 +251,19 @@ def pdata(pdvs):
     return pdu(4, b"".join(pdv(*p) for p in pdvs))
 
 
-def fragment(ctx, command, dataset, max_pdu=16382, one_pdu=False):
+def fragment(ctx, command, dataset, max_pdu=16382, one_pdu=False, empty_last=False):
     """Encode a DIMSE message as P-DATA-TF PDUs (one PDV per PDU unless
-    one_pdu) with PDV data no longer than max_pdu - 6 (0 = unlimited)."""
+    one_pdu) with PDV data no longer than max_pdu - 6 (0 = unlimited).
+    empty_last: the data set's bytes travel in fragments that are not marked last,
+    followed by an empty fragment that is (legal, PS3.8 Annex E)."""
     size = (max_pdu - 6) if max_pdu else (1 << 30)
     pdvs = []
     for is_cmd, blob in ((True, command), (False, dataset)):
         if blob is None or (not is_cmd and len(blob) == 0):
             continue
         parts = [blob[i:i + size] for i in range(0, len(blob), size)] or [b""]
+        if empty_last and not is_cmd:
+            parts = parts + [b""]
         for i, part in enumerate(parts):
             pdvs.append((ctx, is_cmd, i == len(parts) - 1, part))
     if one_pdu:
